@@ -99,6 +99,34 @@ def run(pid, mod, chk):
         if not hit:
             bad += 1
             sys.stdout.write(stdout[-1500:])
+    # independently written breaking changes (seeded/<id>-<n>) that this check is recorded as catching must still be caught
+    sd = os.path.join(VERIF, "seeded")
+    if os.path.isdir(sd):
+        for name in sorted(os.listdir(sd)):
+            mp = os.path.join(sd, name, "meta.json")
+            patch = os.path.join(sd, name, "patch.diff")
+            if not (os.path.exists(mp) and os.path.exists(patch)):
+                continue
+            with open(mp) as fh:
+                meta = json.load(fh)
+            rec = meta.get("what_we_ran", {}).get("checks", {}).get(pid)
+            if not rec or rec.get("rc") != 1:
+                continue
+            rules = sorted(set(k.split("|")[0] for k in rec.get("violations", []) if not k.startswith("anchor")))
+            try:
+                res = run_mutant(patch, [pid])
+            except Exception as e:  # noqa
+                print(f"[{pid}] selftest: seeded {name}: ERROR {e}")
+                bad += 1
+                continue
+            _, rc, viol, stdout = res[0]
+            keys = [v["key"] for v in viol]
+            hit = rc == 1 and (not rules or any(k.split("|")[0] in rules for k in keys))
+            results.append({"seeded_change": name, "detected": hit, "expected_rules": rules, "keys": keys[:4]})
+            print(f"[{pid}] selftest: seeded {name}: {'detected' if hit else 'MISSED'} ({len(keys)} violation(s))")
+            if not hit:
+                bad += 1
+                sys.stdout.write(stdout[-1500:])
     # behaviour-preserving refactors must stay silent
     eq_dir = os.path.join(VERIF, "selftest", "equiv")
     if os.path.isdir(eq_dir):
